@@ -18,7 +18,14 @@ def build_named(t, names, parent=None, nodes=None):
 
 def run_case(c):
     nodes = {}
-    root = build_named(c["tree"], c["names"], nodes=nodes)
+    if c.get("embed"):
+        import implutil
+        A = implutil.adv(AnyNode)
+        top = A(lbl=1000, name="top")
+        A(parent=top, lbl=1001, name="s")
+        root = build_named(c["tree"], c["names"], parent=A(parent=top, lbl=1002, name="mid"), nodes=nodes)
+    else:
+        root = build_named(c["tree"], c["names"], nodes=nodes)
     filt = (lambda n, s=set(c["filt"]): n.lbl in s) if c["filt"] is not None else None
     stop = (lambda n, s=set(c["stop"]): n.lbl in s) if c["stop"] is not None else None
     kw = dict(filter_=filt, stop=stop, maxlevel=c["ml"])
@@ -58,7 +65,7 @@ def run_case(c):
         if c["etype"] or kind == "mermaid":
             kw["edgefunc"] = lambda a, b: etype.get((a.lbl, b.lbl), c["edefault"])
         ex = MermaidExporter(root, **kw)
-    before = snapshot(root)
+    before = snapshot(root.root)
     l1 = list(ex)
     l2 = list(ex)
     if c.get("tofile"):
@@ -76,7 +83,7 @@ def run_case(c):
         os.remove(path)
         if text != expect:
             return {"crash": "file output differs from the iterated lines"}
-    if snapshot(root) != before:
+    if snapshot(root.root) != before:
         return {"crash": "export modified the tree"}
     if not all(isinstance(x, str) for x in l1 + l2):
         return {"crash": "non-string line"}
